@@ -370,7 +370,7 @@ func TestVerifC12Views(t *testing.T) {
 		atoi := func(x string) int { n, _ := strconv.Atoi(x); return n }
 		for _, op := range ops {
 			switch op[0] {
-			case "m":
+			case "m", "p", "r": // p / r (forced-interleaving leg) are plain measurements when run sequentially
 				v, _ := strconv.ParseInt(op[3], 10, 64)
 				if j := atoi(op[1]); j < len(insts) && recs[j] != nil {
 					recs[j](c12ParseSet(op[2]), v)
